@@ -67,14 +67,14 @@ func raceBox(tier, family string) time.Duration {
 	switch family {
 	case "close-flood-client", "close-flood-server":
 		return 8 * time.Second
-	case "timeout-delivery":
+	case "timeout-delivery", "deliver-close":
 		return 5 * time.Second
 	}
 	return 3 * time.Second
 }
 
 // two families run at a time (each keeps four to six cores busy); the two long ones are not paired with each other
-var raceOrder = [][]string{{"close-flood-server", "timeout-delivery"}, {"close-flood-client", "send-close-client"}, {"send-close-server", "deliver-close"}}
+var raceOrder = [][]string{{"close-flood-server", "timeout-delivery"}, {"close-flood-client", "send-close-client"}, {"send-close-server", "deliver-close"}} // lanes: 19 s and 13 s
 
 func runRaces(tier string) {
 	type outcome struct {
